@@ -1,7 +1,8 @@
 (* Run_C08.v — evaluates the C08 model and specification on cases produced by
    the harness (harness/src/bin/c08).  Verdict codes: 0 agree, 1 violation,
    2 divergence, 9 malformed, 108 known-finding class K4 (null instance type),
-   109 known-finding class K5 (annotations of a path/query parameter). *)
+   109 known-finding class K5 (annotations of a path/query parameter),
+   110 known-finding class K6 (integer bound that is not an integer inside i64). *)
 From DS Require Import Base Json Schema J2Oas SchemaSem J2OasSpec.
 Open Scope N_scope.
 
@@ -11,6 +12,7 @@ Definition V_DIVERGE : N := 2.
 Definition V_MALFORMED : N := 9.
 Definition V_K4 : N := 108.
 Definition V_K5 : N := 109.
+Definition V_K6 : N := 110.
 
 (* what the document shows: the schema at the site and components.schemas
    (keyed by reference string), or a panic of the document generator, or a
@@ -201,7 +203,8 @@ Definition judge (c : c08case) : N :=
   match c with
   | CConv param expect name src defs obs instances =>
       let sup := supported src && all_defs supported defs in
-      let supnn := supported_nonull src && all_defs supported_nonull defs in
+      let no_k4 := supported_with false true src && all_defs (supported_with false true) defs in
+      let no_k6 := supported_with true false src && all_defs (supported_with true false) defs in
       let conv_ok := is_ok (model_conv param name src)
                      && all_defs (fun d => is_ok (j2oas None d)) defs in
       if match expect with Some e => negb (bool_eqb e sup) | None => false end
@@ -226,7 +229,8 @@ Definition judge (c : c08case) : N :=
                                   (annots_oas o) && defs_annots_ok defs comps in
           if sup then
             if sem_ok && ann_ok then (if model_ok then V_AGREE else V_DIVERGE)
-            else if negb supnn && model_ok && ann_ok then V_K4
+            else if negb no_k4 && model_ok && ann_ok then V_K4
+            else if negb no_k6 && model_ok && ann_ok then V_K6
             else if param && model_ok && sem_ok then V_K5
             else V_VIOLATION
           else (if model_ok then V_AGREE else V_DIVERGE)
